@@ -30,12 +30,21 @@ MODULES = ["c02", "c03", "c04", "c06", "c08", "c09", "c10", "c11", "c12", "c13",
 TABLE = core.VERIF / "delegation_table.json"
 
 
+# code a property depends on although properties.jsonl does not list the file: one line of reason each
+EXTRA = {
+    "C19": ["c/dynmat.c"],  # the inverse transform behind DynmatToForceConstants (force constants rebuilt from eigen-solutions, correlation matrices)
+    "C17": ["phonopy/structure/cells.py"],  # get_cell_matrix / get_cell_matrix_from_lattice orient the cell the LAMMPS interface writes and rotate its forces back
+    "C09": ["phonopy/structure/symmetry.py", "phonopy/phonon/moment.py"],  # lattice-vector equivalence decides whether the mesh may be reduced; moments are mesh consumers
+    "C12": ["phonopy/api_phonopy.py"],  # group velocities are configured and rebuilt by the Phonopy object
+}
+
+
 def anchors() -> dict:
     out = {}
     for line in (core.VERIF / "properties.jsonl").read_text().splitlines():
         if line.strip():
             d = json.loads(line)
-            out[d["id"]] = set(d.get("anchors", {}).get("files", []))
+            out[d["id"]] = set(d.get("anchors", {}).get("files", [])) | set(EXTRA.get(d["id"], []))
     return out
 
 
